@@ -568,6 +568,13 @@ impl<F: Float> Harmonic<F> {
     ///
     pub fn ci_mean(&self, confidence: Confidence) -> CIResult<Interval<F>> {
         let arith_ci = self.recip_space.ci_mean(confidence.flipped())?;
+        // the reciprocal of an interval that reaches zero (or below) is not an interval
+        let is_non_positive = |x: &F| *x <= F::zero();
+        if arith_ci.left().is_some_and(is_non_positive)
+            || arith_ci.right().is_some_and(is_non_positive)
+        {
+            return Err(crate::interval::IntervalError::InvalidBounds.into());
+        }
         let (lo, hi) = (F::one() / arith_ci.high_f(), F::one() / arith_ci.low_f());
         match confidence {
             Confidence::TwoSided(_) => Interval::new(lo, hi).map_err(|e| e.into()),
